@@ -59,7 +59,25 @@ func newC18TmrChain(t0 time.Time) *c18TmrChain {
 // `count` headers of chain `chainID` from height `first`, 5 s apart from t0; the validator set changes with every
 // block; appHash (when given) is the application hash every header carries — a real root of the live counterparty, so
 // that genuine ICS-23 proofs of that chain verify against the consensus states of this synthetic one
+// free-form fields of a valid Tendermint header: the app hash may have ANY length; data / evidence / last-results hash
+// are empty or 32 bytes; the proposer address has 20 bytes
+type c18TmShape struct{ data, evidence, lastResults, proposer int }
+
+var c18TmShapeDefault = c18TmShape{32, 32, 32, 20}
+
 func newC18TmrChainAt(chainID string, first int64, count int, t0 time.Time, appHash []byte) *c18TmrChain {
+	return newC18TmrChainShape(chainID, first, count, t0, appHash, c18TmShapeDefault)
+}
+
+func c18Fill(n int, tag byte) []byte {
+	b := make([]byte, n)
+	for i := range b {
+		b[i] = tag + byte(i)
+	}
+	return b
+}
+
+func newC18TmrChainShape(chainID string, first int64, count int, t0 time.Time, appHash []byte, sh c18TmShape) *c18TmrChain {
 	c := &c18TmrChain{chainID: chainID, first: first, t0: t0, sets: map[int64]*tmtypes.ValidatorSet{}, hdr: map[int64]*xibctmtypes.Header{}}
 	for i := 0; i < 6; i++ {
 		pv := mock.NewPV()
@@ -90,6 +108,9 @@ func newC18TmrChainAt(chainID string, first int64, count int, t0 time.Time, appH
 		if appHash != nil {
 			ah = appHash
 		}
+		if appHash != nil && len(appHash) == 0 {
+			ah = nil
+		}
 		th := tmtypes.Header{
 			Version:            tmprotoversion.Consensus{Block: version.BlockProtocol, App: 2},
 			ChainID:            chainID,
@@ -97,14 +118,14 @@ func newC18TmrChainAt(chainID string, first int64, count int, t0 time.Time, appH
 			Time:               ts,
 			LastBlockID:        xibctesting.MakeBlockID(make([]byte, tmhash.Size), 10_000, make([]byte, tmhash.Size)),
 			LastCommitHash:     tmhash.Sum([]byte("last_commit")),
-			DataHash:           tmhash.Sum([]byte("data_hash")),
+			DataHash:           c18Fill(sh.data, 'd'),
 			ValidatorsHash:     vs.Hash(),
 			NextValidatorsHash: c.sets[h+1].Hash(),
 			ConsensusHash:      tmhash.Sum([]byte("consensus_hash")),
 			AppHash:            ah,
-			LastResultsHash:    tmhash.Sum([]byte("last_results_hash")),
-			EvidenceHash:       tmhash.Sum([]byte("evidence_hash")),
-			ProposerAddress:    vs.Proposer.Address, //nolint:staticcheck
+			LastResultsHash:    c18Fill(sh.lastResults, 'r'),
+			EvidenceHash:       c18Fill(sh.evidence, 'e'),
+			ProposerAddress:    append(append([]byte{}, vs.Proposer.Address...), make([]byte, 40)...)[:sh.proposer], //nolint:staticcheck
 		}
 		blockID := xibctesting.MakeBlockID(th.Hash(), 3, tmhash.Sum([]byte("part_set")))
 		voteSet := tmtypes.NewVoteSet(chainID, h, 1, tmproto.PrecommitType, vs)
